@@ -48,6 +48,13 @@ func (t *Table) HasValidBlockIndices() bool {
 }
 
 func (t *Table) PrimaryKey() []string {
+	for _, k := range t.PK {
+		if int(k) >= len(t.Columns) {
+			// corrupted table (doctor offers to reset such a primary key): report
+			// no primary key instead of indexing past the columns
+			return nil
+		}
+	}
 	return slice.IndicesToValues(t.Columns, t.PK)
 }
 
